@@ -102,6 +102,10 @@ func init() {
 		// the repository's own tests, run with the verif tag: observer invariants on every connection
 		rc, rev := repoTestTraces(run, map[string]bool{"C08": true})
 		fmt.Printf("C08: %d connections (%d hook events) of the repository's own test suite validated by TLC against the observer invariants\n", rc, rev)
+		// the delivery goroutine held before it calls the backend: no callback begins after Logout
+		mcv := modelCheck("Verdict", "MC_Verdict.cfg", 4)
+		nl := lateStartFamily(run)
+		fmt.Printf("C08: Verdict.tla %d states; %d late-start schedules (delivery goroutine held at its start) judged by TLC\n", mcv.Distinct, nl)
 		fmt.Printf("C08: TLC %d+%d states; %d/%d closing/logout edges replayed (+%d/%d TLS family); %d conversations cut at every octet (%d cut points), goroutine census after each; %d walks validated\n",
 			mc.Distinct, amc.Distinct, st.Covered, st.Edges, ast.Covered, ast.Edges, paths, convs, vs.Walks)
 		run.Finish("model_checking", evid.Coverage{
@@ -110,9 +114,11 @@ func init() {
 			"closing_edges_replayed":        st.Covered + ast.Covered, "closing_edges": st.Edges + ast.Edges,
 			"conversations_swept":           paths, "cut_points": convs, "goroutine_census_failures": leaks,
 			"recorded_walks_validated": vs.Walks, "repo_test_connections_validated": rc, "repo_test_hook_events": rev,
+			"late_start_schedules": nl, "verdict_model_states": mcv.Distinct,
 			"samples":                  samples, "checker_cmd": mc.Cmd,
 		}, []string{"every closing step is sent with three more commands pipelined behind it in the same segment",
-			"Logout after a concurrent Server.Close and the BDAT 0 + QUIT delivery-start window are the lifecycle / Bdat families (C20)"})
+			"in the ordinary engines the command loop is held (gate bdat-spawned) until a launched delivery has begun its Data callback; the opposite schedule - the goroutine not scheduled until the transfer or the session has ended - is the late-start family (Verdict.tla), a known finding",
+			"Logout after a concurrent Server.Close is the lifecycle family (C20)"})
 	}
 }
 
